@@ -67,6 +67,8 @@ class Profile:
         obs_type=None,
         indirect_boost=0,
         observe_pct=0,
+        swap_cjmp_arms=0,
+        mixed_zero_signs=True,
         forbidden=(),
     ):
         self.__dict__.update(locals())
@@ -452,6 +454,8 @@ class _FuncGen:
             rest = draw(st.permutations(order[1:]))
             order = [0] + list(rest)
         fn["layout"] = order
+        if not prof.mixed_zero_signs:
+            unify_zero_signs(fn)
         return fn
 
     def entry_setup(self, pool, out, define):
@@ -868,7 +872,12 @@ class _FuncGen:
             ty = self.pick([t for t in self.types if self.prof.allowed("cjmp", t)] or self.types)
             a = self.value_of(ty, pool, out)
             c = self.value_of(ty, pool, out)
-            out.append(["cjmp", a, self.pick(CONDS), c, bn[succs[0]], bn[succs[1]]])
+            yes, no = bn[succs[0]], bn[succs[1]]
+            if self.prof.swap_cjmp_arms and self.chance(self.prof.swap_cjmp_arms):
+                # without this the 'yes' arm is (almost) always the spanning-tree child and only the 'no' arm can be
+                # a direct jump to the join block
+                yes, no = no, yes
+            out.append(["cjmp", a, self.pick(CONDS), c, yes, no])
 
     def wrap_tailrec(self, fn):
         """entry: n <= 0 ? base : body ... last block: r = call self(n-1, ...); return r"""
@@ -965,6 +974,16 @@ class _ModGen:
             self.functions.append(fn)
         g = [dict((k, v) for k, v in g.items() if k != "fuel") for g in self.globals]
         return {"ptr_bits": prof.ptr_bits, "globals": g, "externals": self.externals, "functions": self.functions}
+
+
+def unify_zero_signs(fn):
+    """Profile.mixed_zero_signs=False: within one block all float zero constants of a type get the sign of the first one
+    (for consumers whose subject merges the constants 0.0 and -0.0 of a block)."""
+    for b in fn["blocks"]:
+        first = {}
+        for ins in b["ins"]:
+            if ins[0] == "const" and is_float(ins[2]) and unfhex(ins[3]) == 0.0:
+                ins[3] = first.setdefault(ins[2], ins[3])
 
 
 def modules(profile=FULL):
